@@ -29,11 +29,11 @@ ASSUMPTIONS = ["Python's csv module and float repr are trusted to produce the re
                "Integer reads only over integer-valued cells below 2^53"]
 DOUBLES = [0.0, -0.0, 1.0, 0.1, 1 / 3.0, 5e-324, 2.2250738585072014e-308, 1.7976931348623157e308, 1e22, 123456789.12345679, -9999.0]
 INTS = [0.0, 1.0, -3.0, 2.0 ** 52, -9999.0, 7.0]
-HEADERS = ["A", "a b", "a,b", 'a"b', "café"]
+HEADERS = ["A", "a b", "a,b", 'a"b', "café", " A", "A ", "\tA"]  # (a column name is its exact text: blanks at either end belong to it, ` A` and `A` are two columns)
 
 
 def BOUND(tier):
-    return "tables <=3 rows x <=2 columns over 11 doubles (6 integers for Integer reads); 5 header names; 4 MissingVal situations; 3 DataTypes; blank lines at every position; CRLF; writes of 1..3 results"
+    return "tables <=3 rows x <=2 columns over 11 doubles (6 integers for Integer reads); 8 header names; 4 MissingVal situations; 3 DataTypes; blank lines at every position; CRLF; writes of 1..3 results"
 
 
 def cases(tier):
